@@ -323,6 +323,45 @@ func runCase(spec gen10.ClusterSpec, entry string, nbrs []nbrSpec, relabel *rela
 	}
 	tr := sim10.Run(bt.Region, op)
 	st := stageOf(op.Desc(), rules)
+	if entry != "controller" && relabel == nil {
+		// round 8: the same check while the id allocator fails (gen10.FaultCluster): an operator that needs a new peer id cannot
+		// be built - the checker has to return none; an operator that needs none is the same as before
+		fc := &gen10.FaultCluster{Cluster: bt.TC, FailFrom: 1}
+		var op1 *operator.Operator
+		if rules {
+			op1 = checker.NewRuleChecker(fc, bt.TC.RuleManager, cache.NewDefaultCache(16)).Check(bt.Region)
+		} else {
+			op1 = checker.NewReplicaChecker(fc, cache.NewDefaultCache(16)).Check(bt.Region)
+		}
+		needsID := false
+		for i := 0; i < op.Len(); i++ {
+			switch op.Step(i).(type) {
+			case operator.AddPeer, operator.AddLearner, operator.AddLightPeer, operator.AddLightLearner:
+				needsID = true
+			}
+		}
+		if op1 != nil && op1.Len() > 0 && (op1.Desc() != op.Desc() || !needsID) {
+			// either the repair needs no new id at all (ties between equal candidates are broken at random: not compared), or
+			// the repair that needs an id could not be built and the checker went on to another repair that needs none
+			// (e.g. fix-peer-role after replace-rule-offline-peer): fine
+			o.tags = append(o.tags, "alloc-fault:other-repair")
+		} else if op1 != nil {
+			// a repair of the kind that adds a peer, or an operator without steps: built although its ids could not be allocated
+			o.tags = append(o.tags, "alloc-fault:operator-differs")
+			tr1 := sim10.Run(bt.Region, op1)
+			sig := "C10:alloc-fault:operator-built-without-its-ids"
+			if len(tr1.Final().Peers) < len(bt.Region.GetPeers()) && len(tr.Final().Peers) >= len(bt.Region.GetPeers()) {
+				sig = "C10:alloc-fault:replica-removed-without-replacement"
+			}
+			o.viol = append(o.viol, res.Violation{Sig: sig,
+				Desc:   fmt.Sprintf("with a working id allocator: %s; while AllocID fails: %s (%d steps)", sim10.Summary(op), sim10.Summary(op1), op1.Len()),
+				Replay: map[string]interface{}{"Spec": spec, "Entry": entry, "Nbrs": nbrs, "AllocIDFails": true}})
+		} else if op1 == nil {
+			o.tags = append(o.tags, "alloc-fault:none")
+		} else {
+			o.tags = append(o.tags, "alloc-fault:same-operator")
+		}
+	}
 	if op.Desc() == "remove-orphan-peer" && relabel == nil {
 		for i := 0; i < op.Len(); i++ {
 			if rp, ok := op.Step(i).(operator.RemovePeer); ok {
